@@ -153,7 +153,7 @@ class MethodTranslator:
         return len(self.fns) - 1
 
     def cond_(self, node, fr):
-        self.conds.append((_u(node), node if fr.depth == 0 else None, fr))
+        self.conds.append((_u(node), node, fr.depth == 0))
         return len(self.conds) - 1
 
     def cnt_(self, src):
@@ -590,9 +590,10 @@ def extract(repo):
     return out
 
 
-def eval_cond(node, params, frame):
-    """value of a branch condition of the method's own body for a concrete estimator / input:
-    True / False, or None when it depends on the data (or is not understood)."""
+def eval_cond(node, params, frame, top=True):
+    """value of a branch condition for a concrete estimator / input container: True / False, or
+    None when it depends on the data (or is not understood).  `top`: the condition belongs to the
+    method's own body (only there `Z` is known to be the argument)."""
     def val(n):
         if isinstance(n, ast.Constant):
             return ("v", n.value)
@@ -604,7 +605,7 @@ def eval_cond(node, params, frame):
             xs = [val(x) for x in n.elts]
             return None if any(x is None for x in xs) else ("v", [x[1] for x in xs])
         if isinstance(n, ast.Call) and _dotted(n.func) == "isinstance" and len(n.args) == 2 \
-                and isinstance(n.args[0], ast.Name) and n.args[0].id in ("Z", "z") \
+                and top and isinstance(n.args[0], ast.Name) and n.args[0].id in ("Z", "z") \
                 and _dotted(n.args[1]) in ("pd.DataFrame", "pd.Series"):
             isdf = _dotted(n.args[1]) == "pd.DataFrame"
             return ("v", frame == isdf)
